@@ -237,7 +237,16 @@ class Bridge:
         s = gtirb.Section(name="s", uuid=ATTACHED[1], module=m)
         b = gtirb.ByteInterval(size=1, uuid=ATTACHED[2], section=s)
         self.ir = ir
+        self.module = m
         self.nodes = {ATTACHED[0]: m, ATTACHED[1]: s, ATTACHED[2]: b}
+
+    def ensure_nodes(self, n):
+        """at least n further attached nodes (proxy blocks), UUID int
+        0x30000 + i"""
+        have = len(self.nodes) - 3
+        for i in range(have, n):
+            u = uuid.UUID(int=0x30000 + i)
+            self.nodes[u] = self.g.ProxyBlock(uuid=u, module=self.module)
 
     def to_impl(self, v, t, as_node):
         nm, subs = t
@@ -669,6 +678,105 @@ def work(task):
     return label, len(types), n, bad
 
 
+LONG_SIZES_DENSE = list(range(0, 70))
+LONG_SIZES = [127, 128, 129, 191, 192, 193, 255, 256, 257, 320, 511, 512, 513,
+              1023, 1024, 1025, 1280, 2047, 2048, 2049, 4095, 4096, 4097]
+
+
+def long_elements(name, n, distinct):
+    """n values of leaf type `name` mixing boundary values (negatives, both
+    bounds); pairwise distinct when `distinct` (set elements, mapping keys).
+    Returns None when the type has fewer than n distinct values."""
+    if name in R.INTS:
+        nbytes, signed = R.INTS[name]
+        bits = 8 * nbytes
+        lo = -(1 << (bits - 1)) if signed else 0
+        hi = (1 << (bits - 1)) - 1 if signed else (1 << bits) - 1
+        span = hi - lo + 1
+        if distinct and n > span:
+            return None
+        stride = max(1, span // max(n, 1) - 1) | 1
+        # walks the whole range: hits lo, negatives, and values near hi
+        return [lo + (i * stride) % span for i in range(n)] if distinct else \
+            [(lo, -1 if signed else hi, hi, 0, 1, lo + 1)[i % 6] if i % 3 else
+             lo + (i * stride) % span for i in range(n)]
+    if name == "bool":
+        if distinct and n > 2:
+            return None
+        return [bool(i % 2) for i in range(n)]
+    if name in ("float", "double"):
+        base = [0.5 * i - 7.25 for i in range(n)]
+        if not distinct and n > 3:
+            base[1] = float("inf")
+            base[2] = -0.0
+        return base
+    if name == "string":
+        return ["s%d\u00e9" % i if i % 5 else "k%d" % i for i in range(n)]
+    if name == "UUID":
+        br = bridge()
+        br.ensure_nodes(n)
+        return [uuid.UUID(int=0x30000 + i) if i % 3 else
+                uuid.UUID(int=0x50000 + i) for i in range(n)]
+    if name == "Offset":
+        br = bridge()
+        br.ensure_nodes(n)
+        return [("Offset", uuid.UUID(int=0x30000 + i) if i % 2 else
+                 uuid.UUID(int=0x50000 + i), i * 4096) for i in range(n)]
+    return None
+
+
+def long_cases(leafname, sizes):
+    """(type, value) pairs with containers of n elements of that leaf"""
+    lt = leaf(leafname)
+    i64 = leaf("int64_t")
+    for n in sizes:
+        seq = long_elements(leafname, n, False)
+        if seq is not None:
+            yield ("sequence", (lt,)), list(seq)
+            if n in (64, 256, 1024, 1025):
+                # long container in the middle of a tuple / nested
+                yield (("tuple", (("sequence", (lt,)), leaf("uint8_t"),
+                                  ("sequence", (lt,)))),
+                       (list(seq), 7, list(seq[:3])))
+                yield (("sequence", (("sequence", (lt,)),)),
+                       [list(seq), [], list(seq[:1])])
+        if leafname in ("float", "double"):
+            continue
+        dis = long_elements(leafname, n, True)
+        if dis is None:
+            continue
+        yield ("set", (lt,)), frozenset(dis)
+        yield ("mapping", (lt, i64)), {k: -i for i, k in enumerate(dis)}
+        if seq is not None:
+            yield (("mapping", (i64, lt)),
+                   {i - 3: x for i, x in enumerate(seq)})
+        if n in (64, 65, 256, 1025) and leafname in ("UUID", "string"):
+            yield (("mapping", (lt, ("set", (lt,)))),
+                   {dis[0]: frozenset(dis), dis[-1]: frozenset()})
+
+
+def work_long(task):
+    leafname, sizes = task
+    n = 0
+    bad = []
+    for t, v in long_cases(leafname, sizes):
+        for idx in ((0, 1) if leafname in ("UUID", "Offset") else (0,)):
+            n += 1
+            try:
+                with common.time_limit(60):
+                    res = check_case(t, v, idx)
+                    if len(v) in (64, 256, 1025) and idx == 0:
+                        res = res + ir_path_case(t, v, idx)
+            except (common.Hang, MemoryError) as e:
+                res = [(p, "hang-or-unbounded-allocation:" + type(e).__name__,
+                        str(e)) for p in ("C07", "C08")]
+            for prop, kind, detail in res:
+                if len(bad) < 40:
+                    bad.append((prop, kind + ":n=%d" % len(v), R.show(t),
+                                "<%d elements>" % len(v), detail))
+    return leafname, n, bad
+
+
 def work_leaf(task):
     """full leaf tables, alone and as one sequence"""
     name, full = task
@@ -910,6 +1018,21 @@ def run(ctx):
                                       chunksize=1):
         n_cases += n
         bad += b
+    long_sizes = LONG_SIZES_DENSE + (LONG_SIZES if ctx.tier != "quick"
+                                     else [s_ for s_ in LONG_SIZES
+                                           if s_ <= 1280 or s_ == 4097])
+    long_tasks = []
+    for nm in R.LEAVES:
+        long_tasks.append((nm, LONG_SIZES_DENSE))
+        for s_ in long_sizes:
+            if s_ >= 70:
+                long_tasks.append((nm, [s_]))
+    long_tasks.sort(key=lambda t: -max(t[1]))
+    n_long = 0
+    for name, n, b in common.pmap(work_long, long_tasks, chunksize=1):
+        n_cases += n
+        n_long += n
+        bad += b
     capped = False
     done = 0
     for label, nt, n, b in common.pmap(work, tasks, chunksize=1):
@@ -959,6 +1082,11 @@ def run(ctx):
         "framing checks)",
         "type_trees": n_types,
         "values_per_type": k,
+        "long_container_cases": n_long,
+        "long_container_sizes": "every length 0..69, then %s; per leaf type "
+        "as sequence, set, mapping key and mapping value, and nested in a "
+        "tuple / sequence / mapping<_,set<_>> at 64, 256, 1024, 1025"
+        % (sorted(set(long_sizes) - set(LONG_SIZES_DENSE)),),
         "plan": plan_cov,
         "tasks_done": done,
         "tasks_total": len(tasks),
